@@ -43,3 +43,39 @@ impl RusticError {
     #[verifier::external_body]
     pub fn is_code(&self, code: &str) -> bool { unimplemented!() }
 }
+
+// ---- KeyFile::{kdf_key, key_from_data, key_from_password}: from a password to the master key ----
+pub struct PasswdB { pub bytes: Ghost<Seq<u8>> }
+impl PasswdB {
+    #[verifier::external_body]
+    pub fn as_ref(&self) -> (r: &[u8]) ensures r@ == self.bytes@, { unimplemented!() }
+}
+pub struct ParamsR { pub log_n: u8, pub r: u32, pub p: u32 }
+pub struct Log2Err { pub _opaque: u64 }
+pub struct ParamsErr { pub _opaque: u64 }
+pub uninterp spec fn LOG2(n: u32) -> u8;
+#[verifier::external_body]
+pub fn log_2(n: u32) -> (r: Result<u8, Log2Err>) ensures r matches Ok(l) ==> l == LOG2(n), { unimplemented!() }
+impl ParamsR {
+    #[verifier::external_body]
+    pub fn new(log_n: u8, r: u32, p: u32) -> (res: Result<ParamsR, ParamsErr>)
+        ensures res matches Ok(ps) ==> ps.log_n == log_n && ps.r == r && ps.p == p,
+    { unimplemented!() }
+}
+// scrypt and the AEAD key layout: uninterpreted
+pub uninterp spec fn SCRYPT(pw: Seq<u8>, salt: Seq<u8>, log_n: u8, r: u32, p: u32) -> Seq<u8>;
+pub uninterp spec fn KEY_OF(bytes: Seq<u8>) -> AeadKey;
+pub struct ScryptErr { pub _opaque: u64 }
+#[verifier::external_body]
+pub fn vscrypt(pw: &[u8], salt: &[u8], params: &ParamsR, out: &mut [u8; 64]) -> (r: Result<(), ScryptErr>)
+    ensures r is Ok ==> final(out)@ == SCRYPT(pw@, salt@, params.log_n, params.r, params.p),
+{ unimplemented!() }
+#[verifier::external_body]
+pub fn vkey_from_array(k: &[u8; 64]) -> (r: Key) ensures r.0 == KEY_OF(k@), { unimplemented!() }
+// serde_json::from_slice::<MasterKey>(..)?.key(): uninterpreted parse
+pub uninterp spec fn MK_PARSE(json: Seq<u8>) -> AeadKey;
+#[verifier::external_body]
+pub fn vmasterkey_from_json(d: &Vec<u8>) -> (r: RusticResult<Key>) ensures r matches Ok(k) ==> k.0 == MK_PARSE(d@), { unimplemented!() }
+pub struct KeyFileK { pub n: u32, pub r: u32, pub p: u32, pub salt: Vec<u8>, pub data: Vec<u8> }
+// the wrapping key a password yields for a key file
+pub open spec fn wrapping_key(kf: KeyFileK, pw: Seq<u8>) -> AeadKey { KEY_OF(SCRYPT(pw, kf.salt@, LOG2(kf.n), kf.r, kf.p)) }
